@@ -37,7 +37,9 @@ pub enum St {
 }
 
 pub const N_EMPTY: usize = 15;
-pub const N_PAYLOAD: usize = 10;
+pub const N_PAYLOAD: usize = 10 + 2 * FRAME_LENGTHS.len();
+/// decrypted length prefixes announcing absurd lengths (LEB128 values)
+pub const FRAME_LENGTHS: [u128; 9] = [1 << 62, 1 << 63, u64::MAX as u128, u64::MAX as u128 - 1, u64::MAX as u128 - 9, u64::MAX as u128 - 31, 1 << 64, (1 << 64) + 5, u128::MAX >> 2];
 const TIMEOUTS: [Option<u64>; 6] = [None, Some(0), Some(1), Some(5), Some(1000), Some(u64::MAX)];
 
 fn ts_values() -> Vec<u64> {
@@ -294,6 +296,8 @@ fn payload_case<C: Suite>(x: &Ctx<C>, s: Scheme, kind: usize) -> String {
     let rpk = rf::sk_to_pk::<C::R>(&rsk);
     let to_lib_pk = |p: &<C::R as RefSuite>::Pk| pt_from::<PkP<C>>(&rf::enc(p)).unwrap();
     let to_lib_sig = |p: &<C::R as RefSuite>::Sig| pt_from::<SgP<C>>(&rf::enc(p)).unwrap();
+    // kinds >= 10: signcryption (even) / time lock (odd) whose decrypted framing announces FRAME_LENGTHS[i]
+    let (kind, frame_len) = if kind >= 10 { (if (kind - 10) % 2 == 0 { 2 } else { 5 }, FRAME_LENGTHS[(kind - 10) / 2]) } else { (kind, 1u128 << 62) };
     match kind {
         // signcryption: valid ciphertexts with a payload of 0 and 1 byte; the 1 byte one crafted so that the
         // first keystream byte is zero
@@ -311,10 +315,10 @@ fn payload_case<C: Suite>(x: &Ctx<C>, s: Scheme, kind: usize) -> String {
             let r = found.expect("no r with zero keystream byte found");
             let u = <C::R as RefSuite>::Pk::generator() * r;
             let v: Vec<u8> = if kind == 2 {
-                // plaintext framing that announces 2^62 bytes
-                let mut f = rf::leb128(1u128 << 62);
-                f.resize(32, 0);
-                rf::xor(&f, &rf::shake128(&rf::enc(&(rpk * r)), 32))
+                // plaintext framing that announces an absurd length
+                let mut f = rf::leb128(frame_len);
+                f.resize(40, 0);
+                rf::xor(&f, &rf::shake128(&rf::enc(&(rpk * r)), 40))
             } else {
                 vec![0x5a; vlen]
             };
@@ -348,9 +352,9 @@ fn payload_case<C: Suite>(x: &Ctx<C>, s: Scheme, kind: usize) -> String {
                 3 => vec![],
                 4 => vec![0x33],
                 _ => {
-                    let mut f = rf::leb128(1u128 << 62);
-                    f.resize(32, 0);
-                    rf::xor(&f, &rf::shake128(&alpha, 32))
+                    let mut f = rf::leb128(frame_len);
+                    f.resize(40, 0);
+                    rf::xor(&f, &rf::shake128(&alpha, 40))
                 }
             };
             let ct = TimeCryptCiphertext::<C> { u: to_lib_pk(&u), v, w, scheme: ls };
